@@ -15,6 +15,14 @@ import (
 // appear under the default; (2) while the default configuration is in force, the files behind
 // fd 1 and fd 2 of the worker do not grow.
 
+// valueSink is an io.Writer passed by value whose type is not comparable.
+type valueSink struct {
+	s    *world.SimSink
+	note func()
+}
+
+func (v valueSink) Write(p []byte) (int, error) { return v.s.Write(p) }
+
 func c15Run(c *Ctx, o *opCase, level, sinkMode int) {
 	c.Dev.Budget = c08Budget(len(o.data))
 	harness.LogDefault()
@@ -41,7 +49,23 @@ func c15Run(c *Ctx, o *opCase, level, sinkMode int) {
 		return
 	}
 	sink := &world.SimSink{Dev: c.Dev, Mode: sinkMode}
-	harness.LogConfigure(sink, level)
+	if c.L("cfg:x").Chance(1, 5) {
+		// "any writer": one that is passed by value and cannot be compared (a struct with a func
+		// field, like zerolog.ConsoleWriter), configured twice in a row as a program that changes
+		// its level does
+		vs := valueSink{s: sink, note: func() {}}
+		if pi := harness.Guard(func() {
+			harness.LogConfigure(vs, level)
+			harness.LogConfigure(vs, level)
+		}); pi != nil {
+			harness.LogDefault()
+			c.Fail("panic", "SetLogger", pi.Func+"/"+pi.Class, fmt.Sprintf("configuring the logger twice with a writer passed by value panics: %s", pi.Value))
+			return
+		}
+		c.Inc("cfg.writer:uncomparable-value-configured-twice")
+	} else {
+		harness.LogConfigure(sink, level)
+	}
 	harness.Pristine()
 	cfg, _ := o.run(c, Delivery{})
 	harness.LogDefault()
